@@ -620,11 +620,14 @@ def csv_canon(v):
 
 def csv_compare(c, impl, model):
     if 'panic' in impl:
-        return None if model == 'CsvPanic' else 'implementation panicked (%s), model: %s' % (impl['panic'], str(model)[:80])
-    if model == 'CsvPanic':
-        return 'model panics (abs overflow), implementation does not'
+        return 'implementation panicked (%s), model: %s' % (impl['panic'], str(model)[:80])
     if model == 'CsvBadInput':
         return 'generator produced a row outside the Rust field types'
+    if model == 'CsvRejected':      # a DEMAND of i32::MIN: read error E0000 "cannot read jobs" (repair 1cad789)
+        if not impl['ok'] and 'cannot read jobs' in str(impl.get('err')):
+            return None
+        return 'model rejects the tables (DEMAND = i32::MIN), implementation: %s' % (
+            'imports them' if impl['ok'] else 'rejects with %s' % impl.get('err'))
     if not impl['ok']:
         return 'implementation rejects the tables: %s' % impl.get('err')
     m = csv_canon(canon_of_model(model[1]))
@@ -682,10 +685,17 @@ def csv_oracle(c, impl):
     wf = c['wf']
     if 'panic' in impl:
         if not wf['demand_not_min']:
+            # regression class of the repaired finding C11-F2 (kind "fixed": suppresses nothing)
             return [{'class': 'csv-demand-i32-min-abs-overflow', 'what': 'DEMAND = -2147483648 makes the import panic: ' + impl['panic']}]
         return [{'class': 'panic:csv', 'what': 'import panicked: ' + impl['panic']}]
     if not impl['ok']:
+        if not wf['demand_not_min'] and 'cannot read jobs' in str(impl.get('err')):
+            return []       # |i32::MIN| is not a value of the demand type: a read error, like any other unreadable number
         return [{'class': 'csv-tables-rejected', 'what': 'documented tables are rejected: %s' % impl.get('err')}]
+    if not wf['demand_not_min']:
+        # regression class of the repaired finding C11-F2 (kind "fixed": suppresses nothing), build without overflow checks
+        return [{'class': 'csv-demand-i32-min-abs-overflow',
+                 'what': 'DEMAND = -2147483648 is imported (its magnitude is not an i32: the demand cannot be carried)'}]
     v = []
     if wf['tw_pairs']:
         dv = csv_data_violation(c, impl['problem'])
@@ -1185,7 +1195,9 @@ MANIFEST_TEXT = ('Machine-checked proof (Coq, 28 theorems, no axioms). (a) tools
                  'ambiguous untagged enum, which leaves the serialised form unchanged); hence serialise->parse->serialise is the identity '
                  'for all problem, matrix and solution values. (c) model of read_csv_problem on tokenised rows: every row reappears exactly '
                  '(ids, coordinates, |demand|, sign -> task kind, duration, window, capacity, amount, profile) for every hash order; the '
-                 '"valid problem" clause is refuted (vehicle ids built from the profile collide; abs overflow). (b) model of the activity '
+                 'vehicle ids of distinct vehicle rows are distinct (since repair 9df6aa4 of /repo) and the import is total: tables with a DEMAND of '
+                 'i32::MIN, whose magnitude is not a demand value, are rejected (exactly those) and |demand| is exact in every accepted table '
+                 '(since repair 1cad789; the witnesses are restated about the pre-fix code). (b) model of the activity '
                  'matcher (get_job_tag, match_place, multi-job dispatch): a written activity matches back to its own sub-job / place / window '
                  'under explicit distinguishability conditions, both of which are shown necessary by witnesses. The models are tied to /repo '
                  'on every run: schema-driven generated documents (canonical, loose, malformed) through the real deserialize/serialize vs '
@@ -1194,6 +1206,7 @@ MANIFEST_TEXT = ('Machine-checked proof (Coq, 28 theorems, no axioms). (a) tools
 MANIFEST_NOTE = ('Trusted: Coq kernel + vm_compute; tools/serde2coq.py (validated each run); harness and generators. Validated only: the '
                  'serde_json text layer (float printing/parsing: differential stream with one-ulp oracle), BTreeMap ordering, csv tokenizer, '
                  'read_init_solution bookkeeping and the writer (end-to-end campaign, no end-to-end theorem: the init theorems are about the '
-                 'matching rule). Known findings C11-F1..F5 (CSV vehicle ids, CSV abs overflow, later window taken, same-location place taken, '
-                 'float text 2 ulps) are reported as KNOWN-FINDING and do not fail the check.')
+                 'matching rule). Known findings C11-F3..F5 (later window taken, same-location place taken, float text 2 ulps) are reported as '
+                 'KNOWN-FINDING and do not fail the check; C11-F1 / C11-F2 (CSV vehicle ids, CSV abs overflow) are repaired in /repo, their '
+                 'classes remain as regression classes and fail the check if the defects return.')
 MANIFEST_TECHNIQUE = 'Coq proof over executable model + vm_compute differential correspondence with the Rust implementation'
